@@ -553,6 +553,12 @@ def run(program, ctx):
     rule_every_item_sent(program, ctx, prop=P, rid="C12.sender")
     rule_limitstore(program, ctx)
     rule_plain_send(program, ctx)
+    from . import c10 as _c10, c14 as _c14
+
+    # the newest-first cut-off walks the created_at keys: a clamped / lossy timestamp key orders events by id instead
+    _c10.rule_injective(program, ctx, prop=P, rid="C12.index")
+    # a wrapper around the configured output validator that can raise mid-stream ends the stream at that row
+    _c14.rule_validator_object(program, ctx, prop=P, rid="C12.validator")
     from .c01 import rule_hex_total
     rule_hex_total(program, ctx, prop=P, rid="C12.hextotal")
 
